@@ -322,3 +322,25 @@ func VxH13two() {
 		vxAssert(moved, "C13.two.moved-to-declared-path")
 	}
 }
+
+// VxH13fifo: names that collide with the library's own bookkeeping names: an ordinary
+// output called like the FIFO of its sibling (<path>.fifo), like an audit file's temp name,
+// or like a temp dir. Every declared output ends up at its declared path and stays there.
+func VxH13fifo() {
+	vxCmdFree(false, false)
+	wf := newWorkflowWithoutLogging("w", 4)
+	second := []string{"o/reads.fifo", "o/reads.audit.json.tmp", "o/reads.tmp", "o/_scipipe_tmp.x"}[vxChoice("name", 4)]
+	p := NewProc(wf, "p", "vcmd w:{o:a} w:{o:b}")
+	p.SetOut("a", "o/reads")
+	p.SetOut("b", second)
+	c := NewProc(wf, "c", "vcmd r:{i:in} r:{i:in2} w:{o:out}")
+	c.SetOut("out", "c.txt")
+	c.In("in").From(p.Out("a"))
+	c.In("in2").From(p.Out("b"))
+	kind := vxRun(func() { wf.Run() })
+	vxReach("ran")
+	vxAssert(kind == "returned", "C13.bookkeeping-names.run-completes")
+	for _, o := range []string{"o/reads", second, "c.txt"} {
+		vxAssert(vxFSKind(o) == vxFile && vxFSOrigin(o) == "cmd", "C13.bookkeeping-names.output-at-declared-path")
+	}
+}
